@@ -311,6 +311,21 @@ def _wc_value(ex, env):
             return None
         # what a read leaves in an unset slot is stored but is not a value
         return Obj('Asn1Item', {'isValue': ex2.choose(Bool('member.isValue'), 'member-is-a-value')}, name='member')
+
+    def by_name(ex2, self, field, default='(not given)', instantiate=True):
+        # a record object (a nested WITH COMPONENTS sees the member itself): asked without instantiating -- a read must not
+        # leave a placeholder behind -- and with None for "not a value"
+        ex2.vc('%s#record-asked-without-instantiating' % ex2.c.id, z3.BoolVal(instantiate is False and default is None),
+               kind='external')
+        if not ex2.choose(Bool('member.stored'), 'member-stored'):
+            return None
+        if not ex2.choose(Bool('member.isValue'), 'member-is-a-value'):
+            return None          # getComponentByName(default=None, instantiate=False): the default for what is no value
+        return Obj('Asn1Item', {'isValue': True}, name='member')
+    if ex.choose(Bool('value.isRecordObject'), 'record-object'):
+        def no_get(ex2, self, *a, **k):
+            raise _Raise(ExcV('AttributeError'))        # record objects have no .get()
+        return Obj('Sequence', {}, {'getComponentByName': by_name, 'get': no_get}, name='value')
     return Obj('dict', {}, {'get': get}, name='value')
 
 
